@@ -1,20 +1,23 @@
 """C07 - every scheduled output time is written for any duration, period, file split."""
+from contracts import filenames as F
+from contracts import closing as CL
 from contracts import model as M
 from contracts import output as O
+from contracts import output_create as OC
 from contracts import timekeeper as K
 
-UNITS = [O.OutputInitRecords(True), O.OutputInitRecords(False), O.OutputUpdate(), O.Write("sparse"), O.Write("dense"), O.WritePV("sparse"), M.ModelUpdate("sparse"), M.ModelUpdate("dense"), M.ModelUpdate(None), M.ModelFinish({}), K.TKInit(False)]
+UNITS = [O.OutputInitRecords(True), O.OutputInitRecords(False), O.OutputUpdate(), O.Write("sparse"), O.Write("dense"), O.WritePV("sparse"), M.ModelUpdate("sparse"), M.ModelUpdate("dense"), M.ModelUpdate(None), M.ModelFinish({}), K.TKInit(False)] + F.FILENAME_UNITS + list(OC.CREATE_UNITS) + list(CL.CLOSE_UNITS)
 LEMMAS = [M.MainLoopStructure(), M.RecordSchedule()]
 NATIVE = [dict(name="whole runs on real Output/State/TimeKeeper read back with the documented retrieval rule", harness="output_runs_bounded", kind="bounded", timeout=3000)]
 LEVEL = "proof"
 LEVEL_TEXT = ("Deductive proof for all (Nsteps, period, numrec): Output.__init__ computes period_steps == period/dt and num_records == ceil(Nsteps/period_steps) (forward and reversed); "
               "Output.update writes iff step % period_steps == 0; write advances the cursors, closes a file exactly when it holds local_num_records == min(numrec, remaining) records "
               "(writing the particle variables into every file first) and opens the next one iff records remain; main runs Model.update exactly Nsteps times then finish; the arithmetic lemma "
-              "shows the due records are exactly the first num_records multiples of the period, so the last record closes the last file. File naming and whole runs are bounded stand-ins.")
-LEVEL_NOTE = "period a positive multiple of dt and duration a whole number of steps (the property's valid combinations); filename_generator (regex, format strings, generator) and file readability: bounded only"
+              "shows the due records are exactly the first num_records multiples of the period, so the last record closes the last file. filename_generator is verified by induction over its endless loop (k-th name == <stem>_<first number + k, zero padded><suffix>, structured-string model); file readability and whole runs are bounded stand-ins.")
+LEVEL_NOTE = "period a positive multiple of dt and duration a whole number of steps (the property's valid combinations); filename_generator proved over a structured-string model (re.search / str.format / pathlib contracts assumed, no braces in the file name); file readability: bounded only"
 TECHNIQUE = "contract-based deductive verification (cursor invariant, arithmetic lemmas, structural loop rule) + bounded whole-run sweep"
-EXPLANATION = "Record arithmetic and roll-over proved; naming bounded."
-ASSUMPTIONS = ["netCDF4 assignment/close semantics", "period multiple of dt; duration multiple of dt"]
+EXPLANATION = "Record arithmetic, roll-over and file numbering proved; readability of the files bounded."
+ASSUMPTIONS = ["netCDF4 assignment/close semantics", "re.search(_(\\d+)$) / str.format({:0<w>d}) / pathlib stem, suffix, parent contracts; file stem and suffix contain no braces", "period multiple of dt; duration multiple of dt"]
 
 
 def replay_for(unit, label, model):
